@@ -51,6 +51,13 @@ UNITS = [
     U("compare_cstr_n", "String::compare(ptr_const_char|ptr_const_char|unsigned_long_int)", "c_String_compare_n", ["compare.equal"], entry="h_compare",
       srcs=["harness/args.cpp", "contracts/args.c"], replace=[], loops="contracts/args_compare.loops.json"),
     U("cstr", None, None, ["cstr.attached"], funcs=["String::operator const char*() const"]),
+    # case mapping / replace(char, char) against the reference byte string
+    U("casemap_table", None, None, ["casemap_table.letter"], defs=["NV_CASEMAP"], replace=[], srcs=SRCS + ["@TREE@/src/Memory.cpp"],
+      funcs=["String::toLowerCase(char)", "String::toUpperCase(char)", "String::lowerCaseMap", "String::upperCaseMap"]),
+] + [
+    U(nm + ".bounded", None, None, ["b_bytemap.after_nul", "b_bytemap.mapped"], entry="h_b_bytemap", defs=["NV_CASEMAP", "NV_MAPOP=%d" % op], kind="bounded", bound="strings of at most 3 bytes (any byte values, NUL included)",
+      cbmc=["--unwind", "6", "--unwinding-assertions"], funcs=[fn])
+    for (nm, op, fn) in (("toLowerCase", 0, "String::toLowerCase()"), ("toUpperCase", 1, "String::toUpperCase()"), ("replace_char", 2, "String::replace(char, char)"))
 ]
 TRUSTED = ["cbmc 6.11.0 / goto-instrument DFCC / CaDiCaL", "goto-cc C++ front end; String.hpp member subset (compat rules R2-R4)",
            "assumed contracts of Memory::copy/move/compare (libc)", "dep/nstd/Atomic.hpp: sequentially atomic increment/decrement"]
@@ -62,7 +69,7 @@ ASSUMPTIONS = [
     "str[len] == 0 is NOT a representation invariant of String (resize on an empty string leaves the end unterminated; the const char* conversion "
     "repairs lazily): the terminator is proved as postcondition of operator const char*() const",
     "covered members: constructors (default, copy, buffer, capacity), destructor, operator=, clear, attach, resize, reserve, append x3, prepend x2, "
-    "operator const char*() const, ==, !=, find(char), startsWith, endsWith, and the static scanners length(const char*) (index of the first NUL), find(const char*, char) (first occurrence before the NUL), compare(s1, s2, len) (memory safety only).  NOT covered: replace(char,char) (a loop-contract unit exists, harness h_replace_char + contracts/string_replace.loops.json, but cbmc does not finish within 40 min), findLast(char) (its loop ends by comparing the one-before-start pointer `p >= start`; cbmc compares pointer offsets unsigned, so the loop does not terminate in the model -- the pattern is UB in the letter of the standard and works on flat memory; harness h_findLast_char kept but not registered), substr (goto-cc destroys the by-value return temporary before the caller copies it: spurious use-after-free; harness h_substr kept but not registered), compare, replace, case mapping, trim, token/split/join, libc-based find overloads, "
+    "operator const char*() const, ==, !=, find(char), startsWith, endsWith, and the static scanners length(const char*) (index of the first NUL), find(const char*, char) (first occurrence before the NUL), compare(s1, s2, len) (memory safety only).  replace(char,char), toLowerCase(), toUpperCase() are BOUNDED stand-ins (strings of <= 3 arbitrary bytes: byte k of the result == table[byte k] / needle map, copy unaffected) next to the loop-free proof that the two case tables equal the ASCII maps for all 256 byte values; the unbounded loop-contract unit for replace(char,char) (harness h_replace_char + contracts/string_replace.loops.json) is parked: cbmc runs out of memory in propositional reduction (symbolic-index writes into a 2^31-byte object inside a havocked loop).  NOT covered: findLast(char) (its loop ends by comparing the one-before-start pointer `p >= start`; cbmc compares pointer offsets unsigned, so the loop does not terminate in the model -- the pattern is UB in the letter of the standard and works on flat memory; harness h_findLast_char kept but not registered), substr (goto-cc destroys the by-value return temporary before the caller copies it: spurious use-after-free; harness h_substr kept but not registered), compareIgnoreCase, replace(String, String), trim, token/split/join, libc-based find overloads, "
     "printf/scanf family (variadic libc), toBool/fromBool and the char(&)[N] templates (deleted by compat rule R2)",
     "Atomic::increment/decrement sequentially atomic (seam); thread interleavings of C09 not decided",
 ]
